@@ -138,8 +138,7 @@ SUBSET_ADAPTERS = ("::filter", "::filter_map", "::take", "::take_while", "::skip
                    "::find_map", "::min", "::min_by", "::min_by_key", "::last", "::first", "::nth", "::retain", "::position")
 
 
-def r05c(ctx, P):
-    rid = "R05.c"
+def r05c(ctx, P, rid="R05.c"):
     ctx.rule(rid, "FRESHNESS of the staleness token: R05.b makes the generation comparison the only guard for reusing a handle's cached "
                   "live-docs map, so every published segment must carry a generation strictly above every generation already in the "
                   "manifest. At every SegmentWriter::write_segment* call in a publisher (commit, compact) the generation argument is "
@@ -194,6 +193,88 @@ def r05c(ctx, P):
     ctx.floor(rid, n, 2, "write_segment* calls in commit and compact")
 
 
+SHRINKERS = ("::retain", "::retain_mut", "::remove", "::swap_remove", "::drain", "::truncate", "::pop", "::clear", "::split_off",
+             "::dedup", "::dedup_by", "::dedup_by_key")
+MANIFEST = "searchlite_core::index::manifest::Manifest"
+
+
+def _segments_of_manifest(place):
+    return any(isinstance(e, dict) and e.get("f") == "segments" and e.get("of") == MANIFEST for e in place["p"])
+
+
+def shrink_sites(P, f):
+    """Sites in f that can make a Manifest's segment list shorter: shrinking Vec methods on `<manifest>.segments`, and whole
+    stores to that field.  Returns [(Site, description, stored operand or None)]."""
+    out = []
+    defs = f.defs()
+    for b, t in f.calls():
+        cal = callee_of(t)
+        if not cal.endswith(SHRINKERS) or "Vec" not in cal or not t["args"]:
+            continue
+        l = op_local(t["args"][0])
+        seen = set()
+        hit = False
+        while l is not None and l not in seen and not hit:
+            seen.add(l)
+            nxt = None
+            for d in defs.get(l, []):
+                if d["k"] == "assign" and d["rv"]["k"] == "ref":
+                    if _segments_of_manifest(d["rv"]["place"]):
+                        hit = True
+                    nxt = d["rv"]["place"]["l"] if not d["rv"]["place"]["p"] or d["rv"]["place"]["p"] == ["deref"] else nxt
+                elif d["k"] == "assign" and d["rv"]["k"] in ("use", "cast"):
+                    nxt = op_local(d["rv"]["a"])
+                elif d["k"] == "call" and callee_of(d["t"]).endswith(("deref_mut", "deref", "as_mut")) and d["t"]["args"]:
+                    nxt = op_local(d["t"]["args"][0])
+            l = nxt
+        if hit:
+            out.append((Site(f, b), "%s on the manifest's segment list" % cal.rsplit("::", 1)[1], None))
+    for b, i, st in f.stmts():
+        if st["k"] == "assign" and st["dst"]["p"] and _segments_of_manifest(st["dst"]) and \
+                isinstance(st["dst"]["p"][-1], dict) and st["dst"]["p"][-1].get("f") == "segments":
+            out.append((Site(f, b, i), "assignment to the manifest's segment list", st["rv"]))
+    return out
+
+
+def r05d(ctx, P, rid="R05.d"):
+    ctx.rule(rid, "MONOTONE staleness token: the manifest's maximum generation must never go down or be re-used, or an idle handle's "
+                  "remembered generation can match again after other writers changed the index (ABA) and R05.b lets it keep a stale "
+                  "map. In the publishers (commit, compact): (i) no operation that can shorten a Manifest's segment list can reach the "
+                  "SegmentWriter::write_segment* call whose generation argument is computed from such a list (R05.c would then see "
+                  "`max over all` of an already shortened list); (ii) every such shortening is itself the installation of a freshly "
+                  "written segment: the stored value derives from a write_segment* result")
+    n = 0
+    for path in (N.W + "::commit", "searchlite_core::index::Index::compact"):
+        f = P.fn(path)
+        if not ctx.anchor(rid, f, path):
+            continue
+        ctx.saw(f)
+        sl = Slice(f, through_all_calls=True)
+        writes = [b for b, t in f.calls() if callee_of(t).startswith("searchlite_core::index::segment::SegmentWriter") and "::write_segment" in callee_of(t)]
+        n += len(writes)
+        bad = []
+        for site, what, rv in shrink_sites(P, f):
+            reach = f.reachable_from(site.b)
+            if any(w in reach and w != site.b for w in writes):
+                bad.append((site, "%s at %s happens before the new segment's generation is computed: the new segment can re-use the "
+                                  "generation of a segment that was just dropped" % (what, site.loc())))
+                continue
+            fresh = False
+            if rv is not None:
+                ops = [rv["a"]] if rv["k"] in ("use", "cast") else rv.get("ops", [])
+                for o in ops:
+                    if isinstance(o, dict) and op_local(o) is not None and \
+                            any("::write_segment" in c for c in sl.callees(o)):
+                        fresh = True
+            if not fresh:
+                bad.append((site, "%s at %s drops segments without installing a freshly written one: the manifest's maximum generation "
+                                  "can decrease, and a later commit re-creates a generation an idle handle still remembers" % (what, site.loc())))
+        ctx.ob(rid, "%s:%s:generation-monotone" % (rid, f.short), not bad,
+               "the segment list is only ever shortened by installing a freshly written segment, after its generation was computed" if not bad else
+               bad[0][1], bad[0][0].loc() if bad else "%s:%s" % (f.file, f.line))
+    ctx.floor(rid, n, 2, "write_segment* calls in commit and compact")
+
+
 def _read_places(g):
     for b, i, s in g.stmts():
         if s["k"] == "assign":
@@ -211,5 +292,6 @@ def run(ctx, progs):
     r05a(ctx, P)
     r05b(ctx, P)
     r05c(ctx, P)
+    r05d(ctx, P)
     ctx.assumptions += ["parking_lot Mutex/RwLock provide mutual exclusion; a guard protects until it is dropped or moved",
                         "all writer handles of one index share one InnerIndex (Arc), hence one writer_lock"]
